@@ -1,6 +1,6 @@
 (* Entry points extracted for the correspondence check of C17 (unique c17_ prefix). *)
 From Coq Require Import ZArith List.
-Require Import Bits.Lib.Result Bits.Lib.Bytes Bits.Model.P2pFrame Bits.Model.P2pCodec.
+Require Import Bits.Lib.Result Bits.Lib.Bytes Bits.Model.P2pFrame Bits.Model.P2pCodec Bits.Model.P2pSession.
 Import ListNotations.
 Local Open Scope Z_scope.
 
@@ -55,3 +55,11 @@ Definition c17_addr_rt (count : Z) (addrs : list (Z * bytes * bytes * Z)) :=
   sers <- mapM (fun a : Z * bytes * bytes * Z =>
                   let '(t, sv, ip, port) := a in network_ip_addr t sv ip port) addrs ;;
   p <- addr_payload count sers ;; r <- parse_addr_payload p ;; Ok (p, r).
+
+(* sessions over the module global MAGIC_START_BYTES: (outcomes, final value of the global) *)
+Definition c17_step_select (n : bytes) : step := SSelect n.
+Definition c17_step_select_bad : step := SSelectBadType.
+Definition c17_step_recv (fuel : Z) (stream : bytes) (sched : list Z) : step := SRecv (Z.to_nat fuel) stream sched.
+Definition c17_step_ser (c p : bytes) : step := SSer c p.
+Definition c17_magic_session := session.
+Definition c17_network_magic := network_magic.
